@@ -31,7 +31,9 @@ Fails == {"none", "missing_input", "bad_xml", "unresolved_import", "unsupported_
 \* how the files of the input directory are stored: all regular files, the imported sibling a symbolic link to a regular
 \* file kept elsewhere, or the input itself such a link.  The CONTENTS of the directory are the same in all three, so
 \* nothing below depends on `sib` - which is the statement "the result depends on file contents only".
-Sibs == {"regular", "symlink_sibling", "symlink_input"}
+\* "import_cycle": regular files, and the imported sibling imports the input back (the input is then looked up by its
+\* bare name, whatever the spelling on the command line)
+Sibs == {"regular", "symlink_sibling", "symlink_input", "import_cycle"}
 Scenarios == {s \in [spelling : Spellings, out : Outs, pre : Pres, fail : Fails, sib : Sibs] :
                 s.sib # "regular" => (s.fail \in {"none", "unresolved_import", "bad_xml"} /\ s.pre # "shorter")}
 
